@@ -100,6 +100,9 @@ def family(kind, k, roots_choice, rng=None):
     elif roots_choice == "top":
         # keep a handle on nothing but drop only top first, others afterwards in reverse: every object buffered
         drop = [top] + [i for i in range(n - 1, -1, -1) if i != top]
+    elif roots_choice == "only_top":
+        # a single candidate root above the whole shared structure, everything below still held
+        drop = [top]
     elif roots_choice == "keep_bottom":
         drop = [i for i in range(n) if i != bottom]
     elif roots_choice == "keep_top":
